@@ -108,9 +108,32 @@ func TestProp(t *testing.T) {
 	c := pkit.Load(prop)
 	c.Check(t, func(rt *rapid.T) {
 		s := e2.DrawStructural(rt, e2.StructOpt{
-			Env:    progen.EnvOpt{ExportedOnly: true, NoPrivateExt: true, DistinctExt: true, Avoid: c.ActiveSet()},
+			Env:    progen.EnvOpt{ExportedOnly: true, NoPrivateExt: true, DistinctExt: true, PtrKeys: true, Avoid: c.ActiveSet()},
 			NTypes: 14,
 			Roles:  []string{"gostring"},
+			EnumFn: func(env *progen.Env) []*progen.Type {
+				// every kind of struct key x basic and non-basic elements (the map printer has one branch per combination)
+				var out []*progen.Type
+				var keys []*progen.Type
+				for _, d := range env.PtrKeyStructs {
+					keys = append(keys, progen.NamedT(d))
+				}
+				if len(env.KeyStructs) > 0 {
+					keys = append(keys, progen.NamedT(env.KeyStructs[0]))
+				}
+				if len(env.ExtKeys) > 0 {
+					keys = append(keys, progen.NamedT(env.ExtKeys[0]))
+				}
+				keys = append(keys, progen.ArrayOf(2, progen.B("string")), progen.B("float64"))
+				elems := []*progen.Type{progen.B("int"), progen.B("string"), progen.PtrTo(progen.B("int")), progen.SliceOf(progen.B("byte"))}
+				if len(env.Structs) > 0 {
+					elems = append(elems, progen.NamedT(env.Structs[len(env.Structs)-1]))
+				}
+				for i, k := range keys {
+					out = append(out, progen.MapOf(k, elems[i%len(elems)]), progen.MapOf(k, elems[(i+1)%len(elems)]))
+				}
+				return out
+			},
 		})
 		var imports, anchors []string
 		for _, x := range s.Prog.Env.Ext {
